@@ -144,7 +144,7 @@ fn scalar_value(rng: &mut Rng, s: &str) -> (String, Value) {
             if rng.chance(1, 2) {
                 ("PathBuf::from(<std::ffi::OsString as std::os::unix::ffi::OsStringExt>::from_vec(vec![0x2f, 0x74, 0xff, 0x78]))".into(), json!({ "s": "/t\u{fffd}x" }))
             } else {
-                let v = *rng.pick(&["/bin/sh", "", "rel/\u{e9}"]);
+                let v = *rng.pick(&["/bin/sh", "", "rel/\u{e9}", "C:\\Windows\\cmd.exe", "/tmp/a\\b", "\\\\host\\share", "a\\"]);
                 (format!("PathBuf::from({:?})", v), json!({ "s": v }))
             }
         }
